@@ -14,6 +14,10 @@ CLAIMED = {
    text="Bounded model checking of the real amount/percentage text codec (AmountFromString, Unmarshal*, String, PercentageFromString, real strconv.ParseInt source) with z3: for every string of up to N arbitrary bytes the solver shows acceptance <=> membership in the published pattern (NFA built from the JSONSchema pattern, required equal to data/schemas/num/*.json) and that the value read is the denoted decimal; for every int64 x exponent 0..18 the written text matches the pattern and reads back; 17-20 digit strings cover the 64-bit boundary.",
    note="Assumes go/ssa faithful, z3 sound, std-lib models (Sprintf, strconv digit formatting, strings.Index/Count) differential-tested; percentage reader also accepts the documented factor form and empty string. Bounds: strings <= 5 bytes quick / 8 thorough fully symbolic; long digit strings 17-20+0-2 digits. Known finding: MinInt64 printing.",
    ref="DESIGN.md 5 (C06)"),
+ "C13": dict(
+   text="Bounded model checking of the real check-digit validators (DE, IT, FR VAT+SIREN, PL, GR, AT, BE, CH, NL, PT, CO in thorough, common Luhn) with z3: for every ASCII string of the national length (and +-1) the solver shows accepted <=> national format and check digit per a reference statement of the published algorithm, and for IT/FR/PL/CH (DE/AT thorough) that no two accepted codes differ in exactly one digit (2-safety). Regular expressions are evaluated as NFAs built from the pattern strings in the package initialisers.",
+   note="Assumes go/ssa faithful, z3 sound, reference algorithms transcribed from the cited national sources. Outside: ES, GB, IN, MX, BR; normalisers; non-ASCII bytes; reflection-driven dispatch from tax.Identity.Validate. Defect found and fixed: NL accepted signs (2e5c770).",
+   ref="DESIGN.md 5 (C13)"),
 }
 
 NA = {
